@@ -5,6 +5,7 @@ import GoCrypt.Props.C15
 import GoCrypt.Model.Scheme
 import GoCrypt.Props.EndToEnd
 import GoCrypt.Props.FlowModel
+import GoCrypt.Props.EndToEndBcrypt
 
 /-!
 # C01 — a freshly generated hash verifies with the password it was made from
@@ -113,5 +114,9 @@ theorem default_salt_lengths_ok :
 #print axioms GoCrypt.FlowModel.flowNewHash_eq_model_desext
 #print axioms GoCrypt.FlowModel.flowNewHash_eq_model_bcrypt
 #print axioms GoCrypt.FlowModel.flowNewHash_eq_model_argon2
-#print axioms GoCrypt.FlowModel.flowNewHash_sunmd5_partial
+#print axioms GoCrypt.FlowModel.flowNewHash_eq_model_sunmd5
+-- bcrypt: NewHash succeeds on the whole domain (no hypothesis about Blowfish or the password)
+#print axioms GoCrypt.EndToEnd.newHash_total_bcrypt
+#print axioms GoCrypt.EndToEnd.newHash_ok_iff_bcrypt
+#print axioms GoCrypt.EndToEnd.bcryptDerive_length
 end GoCrypt.C01
